@@ -345,18 +345,4 @@ theorem inv_deleteNode (s : St) (id : Nat) (hint : List Nat) (h : Inv s) :
   | false => rw [deleteNode_missing _ _ _ _ hex]; exact h
   | true => exact (deleteNode_main _ s id hint h hex).2.1
 
-theorem inv_apply (s : St) (op : Op) (h : Inv s) : Inv (apply s op).2 := by
-  cases op with
-  | createNode l v => exact inv_createNode s l v h
-  | createEdge a b d ty v => exact inv_createEdge s a b d ty v h
-  | deleteEdge e => exact inv_deleteEdge s e h
-  | deleteNode n hint => exact inv_deleteNode s n hint h
-  | updateNode n l v => exact inv_updateNode s n l v h
-  | updateEdge e v => exact inv_updateEdge s e v h
-
-theorem inv_applyAll (ops : List Op) : ∀ s, Inv s → Inv (applyAll s ops) := by
-  induction ops with
-  | nil => intro s h; exact h
-  | cons op ops ih => intro s h; exact ih _ (inv_apply s op h)
-
 end Neumann.Graph
